@@ -276,8 +276,11 @@ func (fr *Frame) sprintf(i *ssa.Call, args []Val, st *State, g Term, isErr bool)
 			continue
 		}
 		a := x.define("fa", SlAt(sl, IntLit(int64(p.arg))))
-		okc := x.eng.verbOK(p.verb, a)
+		okc := Imp(And(x.fmtHyp...), x.eng.verbOK(p.verb, a))
 		if !fr.ghost {
+			fr.stringerPre(i, p.verb, a, st, g)
+		}
+		if !fr.ghost && !isErr {
 			x.assert(g, fr.oname(fmt.Sprintf("fmt/%s@%d:%s", p.verb, p.arg, x.srcText(i.Pos(), "call"))), okc, x.posOf(i.Pos()),
 				fmt.Sprintf("operand %d of format %q is compatible with verb %s (no %%! marker)", p.arg, format, p.verb))
 		}
@@ -359,7 +362,7 @@ func (e *Engine) fmtArg(x *Exec, verb string, a Term) Term {
 	// syntactically known dynamic type
 	if len(args) == 1 {
 		switch {
-		case (op == "A_string" || op == "A_Column") && (verb == "%s" || verb == "%v"):
+		case (op == "A_string" || op == "A_expr_Column") && (verb == "%s" || verb == "%v"):
 			return Term{args[0], SStr}
 		case op == "A_int" && (verb == "%d" || verb == "%v"):
 			return mk(SStr, "itoa", Term{args[0], SInt})
@@ -369,4 +372,78 @@ func (e *Engine) fmtArg(x *Exec, verb string, a Term) Term {
 	_ = last
 	x.declareOnce(fmt.Sprintf("(declare-fun %s (Any) Str)", name))
 	return mk(SStr, name, a)
+}
+
+// stringerPre: fmt calls String()/GoString()/Error() of its operands.  When an
+// operand may hold a repository type whose method has a contract, the method's
+// precondition becomes an obligation of the Sprintf call (this is how recursion
+// through package fmt stays inside the verified world).
+func (fr *Frame) stringerPre(i *ssa.Call, verb string, a Term, st *State, g Term) {
+	x := fr.x
+	e := x.eng
+	method := "String"
+	if strings.Contains(verb, "#") {
+		method = "GoString"
+	}
+	for _, c := range e.tc.anyCtors {
+		if c.Payload == nil {
+			continue
+		}
+		t := e.ctorTypes[c.Key]
+		if t == nil {
+			continue
+		}
+		elem := t
+		isPtr := false
+		if pt, ok := t.(*types.Pointer); ok {
+			elem, isPtr = pt.Elem(), true
+		}
+		named, ok := elem.(*types.Named)
+		if !ok || named.Obj().Pkg() == nil || !strings.HasPrefix(named.Obj().Pkg().Path(), modPath) {
+			continue
+		}
+		var m *ssa.Function
+		for _, cand := range e.allFuncs {
+			if cand.Name() == method && cand.Signature.Recv() != nil {
+				rt := cand.Signature.Recv().Type()
+				if types.Identical(rt, elem) || (isPtr && types.Identical(rt, t)) {
+					m = cand
+				}
+			}
+		}
+		if m == nil {
+			continue
+		}
+		ct := e.contractOf[m]
+		if ct == nil || len(ct.clauses("requires")) == 0 {
+			continue
+		}
+		is := mk(SBool, "(_ is "+c.Name+")", a)
+		pay := mk(c.Payload, c.Sel, a)
+		var recv Val
+		guard := And(g, is)
+		if isPtr && !isPtrType(m.Signature.Recv().Type()) {
+			// value receiver reached through a pointer: fmt prints <nil> for nil pointers
+			guard = And(guard, Not(PIsNil(pay)))
+			recv = TV{T: PVal(pay)}
+		} else {
+			recv = TV{T: pay}
+		}
+		gg := x.define("gstr", guard)
+		k := x.callCount["fmt."+method]
+		x.callCount["fmt."+method] = k + 1
+		for n, cl := range ct.clauses("requires") {
+			// the generated clause takes the receiver by value or pointer as declared
+			var arg Val = recv
+			if pv, isTV := recv.(TV); isTV && !isPtrType(m.Params[0].Type()) && pv.T.Sort.Kind == KRecord {
+				cell := x.newCell("fmtrecv", pv.T.Sort)
+				cell.Ghost = true
+				st.cells[cell] = pv.T
+				_ = cell
+			}
+			t := fr.evalClause(m, cl, []Val{arg}, st, gg)
+			x.assert(gg, fr.oname(fmt.Sprintf("fmt/nested-%s#%d/%s", method, k, clauseLabel(cl, n))), Imp(And(x.fmtHyp...), t), x.posOf(i.Pos()),
+				"precondition of "+method+"() called by package fmt on this operand (a panic there would print a %!-marker): "+cl.Expr)
+		}
+	}
 }
